@@ -124,6 +124,7 @@ type loopEntry struct {
 	pre     *State // state snapshot at loop entry (after havoc + assume) for decreases
 	decPrev Term
 	hasDec  bool
+	framed  []string
 }
 
 type chanInfo struct{}
